@@ -128,7 +128,7 @@ def run_model(exe, reqs):
 
     def work(sh):
         inp = "".join("%d %s\n" % (i, r) for i, r in sh)
-        p = subprocess.run([exe], input=inp, stdout=subprocess.PIPE, stderr=subprocess.PIPE, text=True,
+        p = subprocess.run([exe], input=inp, stdout=subprocess.PIPE, stderr=subprocess.PIPE, text=True, errors="replace",
                            preexec_fn=_big_stack, timeout=3000)
         got = {}
         for line in p.stdout.splitlines():
@@ -147,7 +147,7 @@ def run_model(exe, reqs):
 
 
 def run_drive(exe, args, inp=None, timeout=3000):
-    p = subprocess.run([exe] + args, input=inp, stdout=subprocess.PIPE, stderr=subprocess.PIPE, text=True, timeout=timeout)
+    p = subprocess.run([exe] + args, input=inp, stdout=subprocess.PIPE, stderr=subprocess.PIPE, text=True, errors="replace", timeout=timeout)
     cases, stats = [], {}
     for line in p.stdout.splitlines():
         if line.startswith("STATS "):
@@ -386,17 +386,23 @@ class Run:
         reqs = []
         for c in cases:
             hx = c["hex"] or ""
-            reqs += ["dec %s %s" % (c["fmt"], hx), "canonv %s %s" % (c["fmt"], c["msg"]) if not c["msg"].startswith("nested") else "info",
-                     "enc %s %s" % (c["fmt"], c["msg"]) if not c["msg"].startswith("nested") else "info"]
+            nested = c["msg"].startswith("nested")
+            vk, vp = go_class(c["V"])
+            reqs += ["dec %s %s" % (c["fmt"], hx),
+                     "rtv %s %s ; %s" % (c["fmt"], c["msg"], vp) if (not nested and vk == "ok" and in_universe(vp)) else "info",
+                     "enc %s %s" % (c["fmt"], c["msg"]) if not nested else "info"]
         ans = run_model(self.model, reqs)
         back = []
         for i, c in enumerate(cases):
-            dec, can, enc = ans[3 * i], ans[3 * i + 1], ans[3 * i + 2]
+            dec, rtv, enc = ans[3 * i], ans[3 * i + 1], ans[3 * i + 2]
             self.evaluations += 1
             vk, vp = go_class(c["V"])
             dk, dp = model_class(dec)
             if vk == "panic":
                 self.report("panic:" + c["V"][:60], "DeserializeDataItem panics", c)
+                continue
+            if c["hex"] is None:
+                self.report("SerializeDataItem-fails", "SerializeDataItem fails on a value of the WAMP data model: " + c["V"], c)
                 continue
             if dk == "ok":
                 mv = dp.rsplit(" rest=", 1)[0]
@@ -414,24 +420,30 @@ class Run:
                 self.count("values: nesting boundary " + c["msg"] + " -> " + vk)
                 continue
             # monitor: the value comes back as itself up to numeric kind
-            if vk == "ok" and can.startswith("ok ") and vp != can[3:]:
-                self.report("roundtrip:value-changed", "DeserializeDataItem(SerializeDataItem(v)) is not v (up to numeric kind)", c,
-                            dict(expected=can[3:][:500]))
+            if vk != "ok":
+                self.report("roundtrip:value-deserialize-fails", "DeserializeDataItem(SerializeDataItem(v)) fails: " + c["V"][:200], c)
+                continue
+            if rtv != "true":
+                self.report("roundtrip:value-changed", "DeserializeDataItem(SerializeDataItem(v)) is not v (up to numeric kind)", c, dict(monitor=rtv))
                 continue
             self.count("values: round trip equal (monitor)")
             self.distinct.add((c["fmt"], "value", c["msg"]))
             if enc.startswith("ok "):
-                back.append((c, enc[3:], can[3:]))
+                back.append((c, enc[3:]))
         if back:
-            inp = "".join("%d %s %s\n" % (i, c["fmt"], mh) for i, (c, mh, can) in enumerate(back))
+            inp = "".join("%d %s %s\n" % (i, c["fmt"], mh) for i, (c, mh) in enumerate(back))
             rcases, _ = run_drive(self.drive, ["deser"], inp=inp)
-            for (c, mh, can), r in zip(back, rcases):
-                self.evaluations += 1
+            rreq = []
+            for (c, mh), r in zip(back, rcases):
                 vk, vp = go_class(r["V"])
-                if not (vk == "ok" and vp == can):
+                rreq.append("rtv %s %s ; %s" % (c["fmt"], c["msg"], vp) if (vk == "ok" and in_universe(vp)) else "info")
+            rans = run_model(self.model, rreq)
+            for (c, mh), r, rt in zip(back, rcases, rans):
+                self.evaluations += 1
+                if rt != "true":
                     r2 = dict(c)
                     r2.update(hex=mh, V=r["V"])
-                    self.broken.append(dict(case=r2, why="model-encoded value decodes differently in the implementation: %s (expected %s)" % (r["V"][:200], can[:200])))
+                    self.broken.append(dict(case=r2, why="model-encoded value decodes differently in the implementation: %s" % r["V"][:300]))
                 else:
                     self.count("values: model bytes -> implementation equal")
 
@@ -529,6 +541,7 @@ def main(tier, replay):
         return replay_main(replay, drive, model)
 
     # ---- Coq obligations
+    common.info("C14: builds %.1fs" % t.s())
     r = common.coq_props(PID, extra_files=EXTRA_COQ)
     undischarged = [o for o in r["obligations"] if o not in r["discharged"]]
     hyg = [h for h in common.hygiene_scan() if h.startswith("Codec/") or h.startswith("Props/C14") or h.startswith("gen/GenC14")]
@@ -542,6 +555,7 @@ def main(tier, replay):
     if thorough:
         n_msg, n_val = 66000, 100000
 
+    common.info("C14: setup %.1fs" % t.s())
     # 1. the recorded witnesses of the known defect classes, on the real code
     pcases, _ = run_drive(drive, ["probe"])
     for c in pcases:
@@ -559,18 +573,22 @@ def main(tier, replay):
         inp = "".join("%d %s %s\n" % (i, f, h) for i, (f, h) in enumerate(corp))
         ccases, _ = run_drive(drive, ["deser"], inp=inp)
         run.check_bytes(ccases, "corpus")
+    common.info("C14: probes+corpus %.1fs" % t.s())
     # 3. exhaustive decision table of listToMsg
     tcases, tstats = run_drive(drive, ["table"])
     run.check_bytes(tcases, "table")
     run.dist["table"] = dict(cases=len(tcases), item_shapes=tstats.get("table_item_shapes"))
+    common.info("C14: table %.1fs" % t.s())
     # 4. structured random messages
     gcases, gstats = run_drive(drive, ["gen", "-seed", str(common.seed()), "-n", str(n_msg)])
     run.check_messages(gcases)
     run.dist["messages"] = gstats
+    common.info("C14: messages %.1fs" % t.s())
     # 5. payload values
     icases, istats = run_drive(drive, ["values", "-seed", str(common.seed()), "-n", str(n_val)])
     run.check_values(icases)
     run.dist["values"] = istats
+    common.info("C14: values %.1fs" % t.s())
     # 6. malformed / mutated byte strings
     step = 50000
     done = 0
@@ -589,6 +607,7 @@ def main(tier, replay):
         k += 1
     run.dist["mutated"] = dict(cases=done, mutations_by_kind=mstats_all)
 
+    common.info("C14: mutated %.1fs" % t.s())
     # ---- disagreements between model and implementation: the tie is broken there
     if run.broken:
         b = run.broken[0]
